@@ -19,6 +19,16 @@ class VObj:
             STR_HOOK()
         return 'VObj'
 
+    # equality as applications write it: fine among objects of the class, an error for anything else. Showing a value
+    # never requires comparing it with another one.
+    def __eq__(self, other):
+        return self._verif_key == other._verif_key
+
+    def __ne__(self, other):
+        return self._verif_key != other._verif_key
+
+    __hash__ = object.__hash__
+
 
 class Facade:
     """What a transparent proxy claims to be."""
@@ -240,6 +250,34 @@ class CollectorRun:
         finally:
             mod.VALS = None
             mod.FVALS = None
+            rg.close()
+
+    def run_pair(self, insts, built):
+        """The same frame collected by SEVERAL snapshot tracepoints of one line, each with its own limits (insts: the
+        same graph with different limits). Returns (host result, {index: snapshot}, escaped)."""
+        from deep.api.tracepoint.trigger import LocationAction, LineLocation, Trigger, Location
+        inst = insts[0]
+        mod, path, marks = self.host(len(inst['roots']))
+        mod.VALS = [built.objs[r] for r in inst['roots']]
+        mod.W = []
+        rg = R.Rig()
+        try:
+            acts = []
+            for k, it in enumerate(insts):
+                conf = {'watches': [], 'frame_type': 'single_frame', 'stack_type': 'stack', 'fire_count': '1',
+                        'fire_period': '1000', 'log_msg': None,
+                        'MAX_VARIABLES': it['maxVars'], 'MAX_STRING_LENGTH': it['maxStr'],
+                        'MAX_COLLECTION_SIZE': it['maxColl'], 'MAX_VAR_DEPTH': it['maxDepth']}
+                acts.append(LocationAction('tp-coll-%d' % k, None, conf, LocationAction.ActionType.Snapshot))
+            trig = Trigger(LineLocation(path.rsplit('/', 1)[-1], marks['frame'], Location.Position.START), acts)
+            rg.install_triggers([trig])
+            res = rg.run(mod.frame_fn, only_file=path)
+            by = {}
+            for s_ in rg.snapshots():
+                by.setdefault(int(s_.tracepoint.id.rsplit('-', 1)[1]), []).append(s_)
+            return res, by, list(rg.escaped)
+        finally:
+            mod.VALS = None
             rg.close()
 
     def run(self, inst, built, watches=(), extra_conf=None, frame_type='single_frame', public=False, log_msg=None):
